@@ -29,7 +29,7 @@ Payload-dependent values stay TOP.  Nothing here is ever given payload bytes.
 from .fold import (Folder, TOP, UNIT, INT_BITS, mk_int, mk_bool, _Abort, _State, Result, MODELLED, _has_top)
 
 NONE = ("adt", "std::option::Option", 0, "None", ())
-SYMK = ("sbyte", "sbits", "sbit", "tagint")
+SYMK = ("sbyte", "sbits", "sbit", "tagint", "sbshr", "sbitv")
 ARITHK = ("lin", "bv")
 from . import gfdom
 GFK = gfdom.GFK
@@ -732,6 +732,18 @@ class PEval(Folder):
         if a[0] == "sbyte":
             if op == "BitAnd" and y > 0 and y & (y - 1) == 0 and y < 256:
                 return ("sbits", a[1], y.bit_length() - 1)
+            if op == "Shr" and 0 <= y <= 7:
+                return ("sbshr", a[1], y)  # byte >> y: bit 0 of the result is bit y of the byte
+            return TOP
+        if a[0] == "sbshr":
+            if op == "BitAnd" and y == 1:
+                return ("sbitv", a[1], a[2])  # (byte >> k) & 1: 0 or 1
+            return TOP
+        if a[0] == "sbitv":
+            if (op == "Ne" and y == 0) or (op == "Eq" and y == 1):
+                return ("sbit", a[1], a[2], False)
+            if (op == "Eq" and y == 0) or (op == "Ne" and y == 1):
+                return ("sbit", a[1], a[2], True)
             return TOP
         if a[0] == "sbits":
             if op == "Ne" and y == 0:
